@@ -13,9 +13,9 @@ import (
 )
 
 var (
-	mu   sync.Mutex
-	out  *os.File
-	seq  int
+	mu     sync.Mutex
+	out    *os.File
+	seq    int
 	opened bool
 )
 
